@@ -344,6 +344,10 @@ func (h *clH) livePositions(pool uint64) []clPos {
 }
 
 func suiteCL(e *Env) {
+	if e.Replay != "" {
+		clReplay(e, e.Replay)
+		return
+	}
 	feeRates := []string{"0", "0.003", "0.01", "0.3", "0.000000000000000001"}
 	ratios := []string{"1.0001", "1.01", "1.1", "2"}
 	offsets := []string{"0", "0.5", "0.3", "0.999"}
@@ -617,8 +621,10 @@ func (h *clH) swap(pool uint64) {
 			return err
 		})
 		cls := class(err, p)
+		if cls == "err" && qcls == "ok" {
+			e.Note("swapIn refused after a successful quote: %v", err)
+		}
 		h.undoIf(cls)
-	h.undoIf(cls)
 		e.Stat("swapIn." + cls)
 		e.Oracle("no_panic", cls != "panic", "swapIn %s", strings.ReplaceAll(lastPanic, "\n", " "))
 		if cls == "ok" {
@@ -648,7 +654,6 @@ func (h *clH) swap(pool uint64) {
 				cls := class(err, p)
 				h.undoIf(cls)
 		h.undoIf(cls)
-	h.undoIf(cls)
 				e.Oracle("no_panic", cls != "panic", "swapIn-back")
 				if cls == "ok" {
 					e.Obs("ok out=%s", back)
@@ -688,7 +693,6 @@ func (h *clH) swap(pool uint64) {
 		})
 		cls := class(err, p)
 		h.undoIf(cls)
-	h.undoIf(cls)
 		e.Stat("swapOut." + cls)
 		e.Oracle("no_panic", cls != "panic", "swapOut")
 		if cls == "ok" {
@@ -857,7 +861,6 @@ func (h *clH) step() {
 		resp, err, p := c.Exec(&lptypes.MsgIncreaseLiquidity{Sender: c.Accs[who].Addr.String(), Id: q.id, AmountBase: ab, AmountQuote: aq, MinAmountBase: sdkmath.ZeroInt(), MinAmountQuote: sdkmath.ZeroInt()})
 		cls := class(err, p)
 		h.undoIf(cls)
-	h.undoIf(cls)
 		e.Stat("increase." + cls)
 		e.Oracle("no_panic", cls != "panic", "increase")
 		if cls == "ok" {
@@ -877,7 +880,6 @@ func (h *clH) step() {
 		})
 		cls := class(err, p)
 		h.undoIf(cls)
-	h.undoIf(cls)
 		e.Stat("incentive." + cls)
 		if cls == "ok" {
 			e.Obs("ok ")
